@@ -150,7 +150,7 @@ def run_case(case):
             fails.append({"sig": f"as_record_raised:{type(e).__name__}", "detail": {"kw": kw, "err": repr(e)[:200]}})
     if not parsed.violations:
         try:
-            rec = sqlfluff.parse(r["source"], dialect=r["dialect"])
+            rec = sqlfluff.parse(r["source"], config=lnt.config)
             counters["records_compared"] += 1
             counters["api_parse_compared"] = 1
             cmp(want, record_leaves(rec), "api_parse", fails, rendered)
@@ -162,7 +162,7 @@ def run_case(case):
             with open(os.path.join(d, "f.sql"), "w", encoding="utf-8", newline="") as f:
                 f.write(r["source"])
             for fmt, meta in (("json", False), ("yaml", True), ("human", False)):
-                args = [pool.PYTHON, "-m", "sqlfluff", "parse", "f.sql", "--dialect", r["dialect"], "--format", fmt, "--nocolor"] + (["--include-meta"] if meta else [])
+                args = [pool.PYTHON, "-m", "sqlfluff", "parse", "f.sql", "--dialect", r["dialect"], "--templater", "raw", "--format", fmt, "--nocolor"] + (["--include-meta"] if meta else [])
                 pr = subprocess.run(args, cwd=d, capture_output=True, timeout=300, env=pool.worker_env({"HOME": d}))
                 out = pr.stdout.decode("utf-8", "replace")
                 if pr.returncode not in (0, 1):
